@@ -183,7 +183,7 @@ def _ascii(ctx, nm, n):
 
 
 FORMS = {'string': 0x08, 'line_strp': 0x1f, 'strp': 0x0e, 'udata': 0x0f, 'data1': 0x0b, 'data2': 0x05, 'data4': 0x06, 'data8': 0x07,
-         'data16': 0x1e, 'block': 0x09}
+         'data16': 0x1e, 'block': 0x09, 'strp_sup': 0x1d, 'GNU_strp_alt': 0x1f21}
 LNCT = {'path': 1, 'directory_index': 2, 'timestamp': 3, 'size': 4, 'MD5': 5}
 LNCT_NAME = {1: 'DW_LNCT_path', 2: 'DW_LNCT_directory_index', 3: 'DW_LNCT_timestamp', 4: 'DW_LNCT_size', 5: 'DW_LNCT_MD5'}
 
@@ -193,8 +193,8 @@ def _gen_v5_value(ctx, nm, form, little, off_size, strtabs):
     if form == 'string':
         s = _ascii(ctx, nm, 2)
         return s + [0], ctx.mkbytes(s)
-    if form in ('line_strp', 'strp'):
-        tab = strtabs[form]
+    if form in ('line_strp', 'strp', 'strp_sup', 'GNU_strp_alt'):
+        tab = strtabs['sup' if form in ('strp_sup', 'GNU_strp_alt') else form]
         # offset symbolic over the starts of the strings in the table
         starts = [i for i in range(len(tab)) if i == 0 or tab[i - 1] == 0][:-1] if tab[-1] == 0 else [0]
         k = ctx.int_range(nm + '.which', 0, len(starts) - 1)
@@ -264,7 +264,7 @@ def gen_header(ctx, ver, fmt64, little, addr, shape, nm='h', strtabs=None):
             fmt = shape.get(fmt_key, [])
             body += [len(fmt)]
             for ct, form in fmt:
-                body += enc.uleb_enc(LNCT[ct], 1) + enc.uleb_enc(FORMS[form], 1)
+                body += enc.uleb_enc(LNCT[ct], 1) + enc.uleb_enc(FORMS[form], 1 if FORMS[form] < 0x80 else 2)
             cnt = shape.get(cnt_key, 0)
             body += enc.uleb_enc(cnt, 1)
             ents = []
@@ -339,13 +339,17 @@ def h_header(ctx):
     cfg = ctx.cfg
     ver, fmt64, little, addr, shape = cfg['ver'], cfg['fmt64'], cfg['little'], cfg['addr'], cfg['shape']
     S = ctx.lib('dwarf.structs')
-    strtabs = {'line_strp': STRTAB, 'strp': STRTAB[3:] + [0x71, 0]}
+    # three string tables with DIFFERENT strings at the same offsets: .debug_line_str, .debug_str and the .debug_str of a
+    # supplementary file (a name resolved through the wrong table, or remembered per offset only, comes out wrong)
+    strtabs = {'line_strp': STRTAB, 'strp': STRTAB[3:] + [0x71, 0], 'sup': [ord(c) for c in 'S\0Tu\0vwx\0yz\0']}
     hb, want = gen_header(ctx, ver, fmt64, little, addr, shape, strtabs=strtabs)
     prog = [0x01, 0x01]
     unit = wrap_unit(hb + prog, fmt64, little)
     pad = cfg.get('pad', 0)
     sec = [0xEE] * pad + unit + [0xEE] * 3
     di, streams = mk_dwarfinfo(ctx, little, addr, debug_line=sec, debug_line_str=strtabs['line_strp'], debug_str=strtabs['strp'])
+    if any(f in ('strp_sup', 'GNU_strp_alt') for k in ('dir_format', 'file_format') for _, f in shape.get(k, [])):
+        di.supplementary_dwarfinfo, _ = mk_dwarfinfo(ctx, little, addr, debug_str=strtabs['sup'])
     structs = S.DWARFStructs(little_endian=little, dwarf_format=64 if fmt64 else 32, address_size=addr, dwarf_version=ver)
     lp = di._parse_line_program_at_offset(pad, structs)
     ctx.outcome('ok')
@@ -525,6 +529,12 @@ def _header_instances(tier):
             dict(opcode_base=10, dir_format=[('path', 'strp')], ndirs=1, file_format=[('path', 'strp'), ('directory_index', 'data2'), ('timestamp', 'udata'), ('size', 'data4')], nfiles=2),
             dict(opcode_base=13, dir_format=[('path', 'string')], ndirs=1, file_format=[('path', 'string'), ('size', 'data8'), ('timestamp', 'block')], nfiles=1),
             dict(opcode_base=13, dir_format=[('path', 'string')], ndirs=1, file_format=[('path', 'string')], nfiles=1, slack=2),
+            # names through different string sections within one header, and through the supplementary file's string table
+            dict(opcode_base=13, dir_format=[('path', 'line_strp')], ndirs=2, file_format=[('path', 'strp'), ('directory_index', 'udata')], nfiles=2),
+            dict(opcode_base=13, dir_format=[('path', 'strp')], ndirs=1, file_format=[('path', 'line_strp')], nfiles=2),
+            dict(opcode_base=13, dir_format=[('path', 'strp_sup')], ndirs=1, file_format=[('path', 'strp_sup'), ('directory_index', 'udata')], nfiles=2),
+            dict(opcode_base=13, dir_format=[('path', 'line_strp')], ndirs=1, file_format=[('path', 'GNU_strp_alt')], nfiles=1),
+            dict(opcode_base=13, dir_format=[('path', 'strp_sup')], ndirs=1, file_format=[('path', 'strp')], nfiles=1),
             # the same sequence of forms with different content types (neighbouring instances serve as each other's decoy: an
             # entry parser remembered per form sequence would mix the fields up)
             dict(opcode_base=13, dir_format=[('path', 'string')], ndirs=1, file_format=[('path', 'string'), ('directory_index', 'udata'), ('size', 'udata')], nfiles=2),
